@@ -37,6 +37,9 @@ CHECKS = {
             'symbolic selector over all operations, parameter values are symbolic; oracle: target file is the old or the new complete snapshot, a failed save '
             'is retried, reload equals saved values, cfg > file > default, corrupt contents (kind catalogue) never prevent start-up; byte-wise truncation of '
             'real JSON text concretely', '5/C17'),
+    'C16': ('model_checking', 'sequential kernels of the real StringIO/BytesIO over a scripted fake connection (real readline/readbytes): stale data, '
+            'time-outs under a virtual clock with symbolic recv steps, multicomm delays (symbolic), reconnect rate limit at symbolic instants, '
+            'reconnect callbacks, framing under chunkings chosen by symbolic selectors', '5/C16'),
 }
 NOT_YET = 'check not built yet in this round (planned per DESIGN.md section 5); not claimed until its harness runs clean'
 NOT_APPLICABLE = {}
